@@ -391,6 +391,10 @@ ALPHABET = [
     Item('LOOKALIKE', b'CLOSE'),
     Item('LOOKALIKE', b'TLSHANDSHAKE', label='LOOKALIKE-tls'),
     Item('NONE', b'123 456', label='GARBAGE'),
+    # malformed variants: an argument that is not valid UTF-8
+    Item('MAIL', b'MAIL FROM:<\xff\xfe@x.org>', label='MAIL-badutf8'),
+    Item('RCPT', b'RCPT TO:<r\xff@y.org>', label='RCPT-badutf8'),
+    Item('EHLO', b'EHLO \xffclient', label='EHLO-badutf8'),
     Item('NONE', b'', label='EMPTY'),
     Item('NONE', b' NOOP', label='LEADSPACE'),
 ]
@@ -475,7 +479,10 @@ class Model(object):
         if k in ('EHLO', 'HELO'):
             if not self.bannered or not arg:
                 return err()
-            name = arg.decode('utf-8')
+            try:
+                name = arg.decode('utf-8')
+            except UnicodeDecodeError:
+                return err()
             v = verdict_of(name)
             exp['cbs'] = [(k, (name,))]
             exp['replies'] = [v or '250']
@@ -490,6 +497,10 @@ class Model(object):
         if k == 'MAIL':
             m = MAILRE.match(arg or b'')
             if not m or not self.ident:
+                return err()
+            try:
+                m.group(1).decode('utf-8')
+            except UnicodeDecodeError:
                 return err()
             if self.gray:
                 return None
@@ -514,6 +525,10 @@ class Model(object):
         if k == 'RCPT':
             m = RCPTRE.match(arg or b'')
             if not m:
+                return err()
+            try:
+                m.group(1).decode('utf-8')
+            except UnicodeDecodeError:
                 return err()
             if self.gray:
                 return None
